@@ -50,17 +50,36 @@ fn do_group_memberof(
     // What are our direct and indirect mos?
     let dmo = ValueSetRefer::from_iter(groups.iter().map(|g| g.get_uuid()));
 
-    let mut mo = ValueSetRefer::from_iter(
-        groups
-            .iter()
-            .filter_map(|g| {
-                g.get_ava_set(Attribute::MemberOf)
-                    .and_then(|s| s.as_refer_set())
-                    .map(|s| s.iter())
-            })
-            .flatten()
-            .copied(),
-    );
+    // Every group reachable upward from the direct groups over member / dynmember links. The
+    // memberof stored on the parents is deliberately not trusted: inside a membership cycle a
+    // stale value supports itself (A has C because B has C because A has C), so removing the
+    // only edge from the cycle to an outer group never removed that group again.
+    let mut ancestors: BTreeSet<Uuid> = BTreeSet::new();
+    let mut work: Vec<Uuid> = groups.iter().map(|g| g.get_uuid()).collect();
+    let mut seen: BTreeSet<Uuid> = work.iter().copied().collect();
+    while let Some(g_uuid) = work.pop() {
+        let parents = qs
+            .internal_search(filter!(f_and!([
+                f_eq(Attribute::Class, EntryClass::Group.into()),
+                f_or!([
+                    f_eq(Attribute::Member, PartialValue::Refer(g_uuid)),
+                    f_eq(Attribute::DynMember, PartialValue::Refer(g_uuid))
+                ])
+            ])))
+            .map_err(|e| {
+                admin_error!("internal search failure -> {:?}", e);
+                e
+            })?;
+        for p in parents {
+            let p_uuid = p.get_uuid();
+            ancestors.insert(p_uuid);
+            if seen.insert(p_uuid) {
+                work.push(p_uuid);
+            }
+        }
+    }
+
+    let mut mo = ValueSetRefer::from_iter(ancestors);
 
     // Add all the direct mo's and mos.
     if let Some(dmo) = dmo {
